@@ -4,9 +4,6 @@ From Coq Require Import List Bool Arith.
 From AL Require Import C17.Model.
 Import ListNotations.
 
-(* the play command does not raise inside the player thread *)
-Definition cmd_ok (c : cmd) : bool := match c with CPlayBad _ _ _ => false | _ => true end.
-
 (* ---- player pcs *)
 (* holding its own lock (thread.lock): the epilogue of run *)
 Definition pc_tsec (pc : ppc) : bool :=
@@ -130,8 +127,7 @@ Record ginv (s : state) : Prop := {
   g_empty : m_after_loop (smpc s) = true -> sthreads s = [];
   g_start : forall p, smpc s = MPlayStart p -> In p (sstarted s);
   g_fin_new : sfinished s = true -> m_new (smpc s) = None;
-  g_todo : m_todo_nonempty (smpc s);
-  g_ok : forallb cmd_ok (sscript s) = true /\ (forall a cr, smpc s = MPlayAcq a cr -> cr = false)
+  g_todo : m_todo_nonempty (smpc s)
 }.
 
 Record pinv (s : state) (i : nat) (p : player) : Prop := {
@@ -147,15 +143,11 @@ Record pinv (s : state) (i : nat) (p : player) : Prop := {
   p_home : p_alive p = true -> In i (alive_home s);
   p_go : m_goset (smpc s) = Some i -> pgo p = true;
   p_after : pafter p <= 1 /\ (phalting p = false -> pafter p = 0)
-            /\ (pafter p = 1 -> pc_nowrite (ppc_ p) = true);
-  p_nocrash : pcrash p = false
+            /\ (pafter p = 1 -> pc_nowrite (ppc_ p) = true)
 }.
 
 Definition inv (s : state) : Prop :=
   ginv s /\ forall i p, nth_error (splayers s) i = Some p -> pinv s i p.
 
-(* reachable from a control script none of whose chunk generators raises; reachable_any: no restriction *)
 Definition reachable (s : state) : Prop :=
-  exists wait script sched, forallb cmd_ok script = true /\ s = exec (init wait script) sched.
-Definition reachable_any (s : state) : Prop :=
   exists wait script sched, s = exec (init wait script) sched.
